@@ -41,7 +41,7 @@ RELEVANT = {
     "DEFAULT_CERT_KEY_TYPE": ["C01"], "DEFAULT_ACCOUNT_KEY_TYPE": ["C11", "C04"],
     "DEFAULT_EXTERNAL_ACCOUNT_JWA": ["C04", "C11"],
     "man_vars": ["C10"], "default_hooks": ["C20"], "profile": ["C17"], "global_merge": ["C13", "C14"],
-    "trust": ["C18"],
+    "trust": ["C18"], "senders": ["C09", "C12"],
 }
 
 
@@ -516,11 +516,52 @@ def gen_man_vars():
     return types
 
 
+def gen_senders():
+    """Every async function of the two HTTP layers (acmed/src/http.rs, acme_proto/http.rs) with whether
+    its parameter list has `&mut Endpoint`, and the functions in which a request is actually sent
+    (`.send()`).  `&mut Endpoint` is what ties a send to the endpoint's write guard (Props/C09Serial)."""
+    rows, send_in = [], []
+    for rel in ("acmed/src/http.rs", "acmed/src/acme_proto/http.rs"):
+        src = vlib.read_repo(rel)
+        code = "\n".join(l.split("//")[0] for l in src.split("\n"))
+        for m in re.finditer(r"\basync\s+fn\s+(\w+)\s*(<[^>]*>)?\s*\(", code):
+            name = m.group(1)
+            # parameter list up to the matching parenthesis
+            i, depth = m.end() - 1, 0
+            for j in range(i, len(code)):
+                if code[j] == "(":
+                    depth += 1
+                elif code[j] == ")":
+                    depth -= 1
+                    if depth == 0:
+                        break
+            params = code[i:j + 1]
+            if name.startswith("test_") or "&self" in params or name == "from_response":
+                continue
+            rows.append((rel.split("/")[-2] + "::" + name if "acme_proto" in rel else "http::" + name,
+                         bool(re.search(r"&\s*mut\s+Endpoint", params))))
+            body = _braced(code, j)
+            if re.search(r"\.send\s*\(\s*\)", body):
+                send_in.append(rows[-1][0])
+    if len(rows) < 5 or not send_in:
+        raise GenError("HTTP layer not recognised (%d async functions, %d senders)" % (len(rows), len(send_in)))
+    text = ("/- GENERATED by /verif/py/gen.py from /repo/acmed/src/http.rs and acme_proto/http.rs on every run.\n"
+            "   Do not edit. -/\nnamespace AcmedVerif.Gen\n\n"
+            "/-- (async function of the HTTP layers, its parameters include `&mut Endpoint`) -/\n"
+            "def asyncHttpFns : List (String × Bool) := [\n  %s]\n\n"
+            "/-- the functions whose body calls `.send()` -/\n"
+            "def sendingFns : List String := %s\n\nend AcmedVerif.Gen\n"
+            % (",\n  ".join('(%s, %s)' % (json.dumps(n), "true" if b else "false") for n, b in rows), _lstr(send_in)))
+    vlib.write_if_changed(os.path.join(vlib.LEAN, "AcmedVerif", "Gen", "Senders.lean"), text)
+    return rows, send_in
+
+
 def gen_all(with_tables=False):
     """Every translator; one that no longer recognises its source is recorded for the properties it
     feeds (its previous output stays in place) instead of stopping the others."""
     for item, fn in (("man_vars", gen_man_vars), ("default_hooks", gen_default_hooks), ("profile", gen_profile),
-                     ("consts", gen_consts), ("global_merge", gen_global_merge), ("trust", gen_trust)):
+                     ("consts", gen_consts), ("global_merge", gen_global_merge), ("trust", gen_trust),
+                     ("senders", gen_senders)):
         try:
             fn()
         except GenError as e:
